@@ -311,6 +311,29 @@ pub fn deep_program(kind: u8, n: u16) -> Program {
             code.push(i0("mov", vec![r(R16::CX), imm(n)]));
             code.push(i0("call", vec![name("rec")]));
         }
+        7 => {
+            // the recursive call is the last instruction of the procedure: every return address is the procedure's own
+            // implied ret
+            code.push(Item::Proc {
+                name: "rec".into(),
+                body: vec![
+                    i0("cmp", vec![r(R16::CX), imm(0)]),
+                    i0("je", vec![name("base")]),
+                    i0("add", vec![r(R16::AX), r(R16::CX)]),
+                    i0("sub", vec![r(R16::CX), imm(1)]),
+                    i0("jmp", vec![name("go")]),
+                    Item::Label("base".into()),
+                    i0("ret", vec![]),
+                    Item::Label("go".into()),
+                    i0("call", vec![name("rec")]),
+                ],
+            });
+            code.push(Item::Label("start".into()));
+            code.push(i0("mov", vec![r(R16::AX), imm(0)]));
+            code.push(i0("mov", vec![r(R16::BX), imm(0)]));
+            code.push(i0("mov", vec![r(R16::CX), imm(n)]));
+            code.push(i0("call", vec![name("rec")]));
+        }
         1 => {
             // p_0 is the leaf, p_i calls p_{i-1} and counts the return
             for i in 0..n {
@@ -481,7 +504,7 @@ fn deep_family(ctx: &Ctx) {
         ns.extend([20_000u16, 65_535]);
     }
     let mut jobs: Vec<(u8, u16)> = Vec::new();
-    for kind in [0u8, 1, 2, 5] {
+    for kind in [0u8, 1, 2, 5, 7] {
         for n in &ns {
             if kind == 1 && *n > 1000 {
                 continue;
@@ -508,7 +531,7 @@ fn deep_family(ctx: &Ctx) {
             let rr = ref_run(&flat, &image, &cfg, &Quirks::none());
             let exp = crate::c17::blank_lines(&normalise(&rr.events));
             let out = run_cli(rendered.text.as_bytes(), Stdin::Closed, false, 1 << 20, 120_000);
-            let name = ["recursion", "procedure-chain", "sequential-calls", "calls-left-by-jump", "start-behind-n-instructions", "calls-left-by-jump", "label-behind-n-instructions"][*kind as usize];
+            let name = ["recursion", "procedure-chain", "sequential-calls", "calls-left-by-jump", "start-behind-n-instructions", "calls-left-by-jump", "label-behind-n-instructions", "tail-position-recursion"][*kind as usize];
             let replay = json!({"kind":"cli","source":rendered.text,"stdin":"","interpreted":false,"blank_line_numbers":true,
                 "expected_events": exp.iter().map(|e| format!("{:?}", e)).collect::<Vec<_>>()});
             let o = if matches!(out.status, Status::Timeout | Status::SpawnError(_)) {
